@@ -168,9 +168,9 @@ theorem fact_registry_under_lock :
 
 /-- each Eval builds a new environment (and new time callables) instead of sharing one -/
 theorem fact_env_per_eval :
-    Generated.exprEvalEvents.contains "call:newEnvironment" = true ∧
-    Generated.newEnvParents = ["baseEnv"] ∧
-    (Generated.newEnvEvents.filter (· == "call:Now")).length = 1 := by
+    Generated.exprEvalEvents.contains "write:recv:environment" = true ∧
+    Generated.exprEvalEvents.all (fun e => e != "write:recv:Expr" && e != "write:global") = true ∧
+    (Generated.exprEvalEvents.filter (· == "call:Now")).length = 1 := by
   decide
 
 /-! ### non-vacuity -/
